@@ -284,6 +284,7 @@ template<Shape S, bool OPEN, int AK> struct Runner {
 	}
 };
 
+#define IDX(e) ([&] { auto it_ = (e); return it_ - x.begin(); }())
 // ------------------------------------------------------------------ vector runner
 template<int AK> struct VecRunner {
 	typedef typename Cont<VEC, false, AK>::type C; typedef typename C::allocator_type A;
@@ -296,16 +297,16 @@ template<int AK> struct VecRunner {
 		if (o == "pb") { int v = I(w, 2); x.push_back(v); out << "-"; }
 		else if (o == "pbr") { x.push_back(I(w, 2)); out << "-"; }
 		else if (o == "eb") { out << x.emplace_back(I(w, 2)); }
-		else if (o == "insv") { size_t p = size_t(I(w, 2)); if (p <= n) { int v = I(w, 3); out << (x.insert(at(p), v) - x.begin()); } else out << "skip"; }
-		else if (o == "empv") { size_t p = size_t(I(w, 2)); if (p <= n) out << (x.emplace(at(p), I(w, 3)) - x.begin()); else out << "skip"; }
-		else if (o == "insn") { size_t p = size_t(I(w, 2)); if (p <= n) out << (x.insert(at(p), size_t(I(w, 3)), I(w, 4)) - x.begin()); else out << "skip"; }
+		else if (o == "insv") { size_t p = size_t(I(w, 2)); if (p <= n) { int v = I(w, 3); out << IDX(x.insert(at(p), v)); } else out << "skip"; }
+		else if (o == "empv") { size_t p = size_t(I(w, 2)); if (p <= n) out << IDX(x.emplace(at(p), I(w, 3))); else out << "skip"; }
+		else if (o == "insn") { size_t p = size_t(I(w, 2)); if (p <= n) out << IDX(x.insert(at(p), size_t(I(w, 3)), I(w, 4))); else out << "skip"; }
 		else if (o == "insrv" || o == "inslv") { size_t p = size_t(I(w, 2)); std::vector<int> v; for (size_t i = 3; i < w.size(); ++i) v.push_back(I(w, i));
-			if (p <= n) { if (o == "insrv") out << (x.insert(at(p), v.begin(), v.end()) - x.begin());
-				else switch (v.size()) { case 0: out << (x.insert(at(p), std::initializer_list<int>{}) - x.begin()); break; case 1: out << (x.insert(at(p), { v[0] }) - x.begin()); break;
-					case 2: out << (x.insert(at(p), { v[0], v[1] }) - x.begin()); break; default: out << (x.insert(at(p), { v[0], v[1], v[2] }) - x.begin()); break; } } else out << "skip"; }
-		else if (o == "insself") { size_t p = size_t(I(w, 2)), q = size_t(I(w, 3)); if (p <= n && q < n) out << (x.insert(at(p), x[q]) - x.begin()); else out << "skip"; }   // value aliasing an element
-		else if (o == "erv") { size_t p = size_t(I(w, 2)); if (p < n) out << (x.erase(at(p)) - x.begin()); else out << "skip"; }
-		else if (o == "errv") { size_t i = size_t(I(w, 2)), j = size_t(I(w, 3)); if (i <= j && j <= n) out << (x.erase(at(i), at(j)) - x.begin()); else out << "skip"; }
+			if (p <= n) { if (o == "insrv") out << IDX(x.insert(at(p), v.begin(), v.end()));
+				else switch (v.size()) { case 0: out << IDX(x.insert(at(p), std::initializer_list<int>{})); break; case 1: out << IDX(x.insert(at(p), { v[0] })); break;
+					case 2: out << IDX(x.insert(at(p), { v[0], v[1] })); break; default: out << IDX(x.insert(at(p), { v[0], v[1], v[2] })); break; } } else out << "skip"; }
+		else if (o == "insself") { size_t p = size_t(I(w, 2)), q = size_t(I(w, 3)); if (p <= n && q < n) out << IDX(x.insert(at(p), x[q])); else out << "skip"; }   // value aliasing an element
+		else if (o == "erv") { size_t p = size_t(I(w, 2)); if (p < n) out << IDX(x.erase(at(p))); else out << "skip"; }
+		else if (o == "errv") { size_t i = size_t(I(w, 2)), j = size_t(I(w, 3)); if (i <= j && j <= n) out << IDX(x.erase(at(i), at(j))); else out << "skip"; }
 		else if (o == "pop") { if (n > 0) { x.pop_back(); out << "-"; } else out << "skip"; }
 		else if (o == "rsz") { x.resize(size_t(I(w, 2))); out << "-"; }
 		else if (o == "rszv") { x.resize(size_t(I(w, 2)), I(w, 3)); out << "-"; }
